@@ -24,7 +24,7 @@ def eps_for(order, deriv, delta, a):
 
 def gen(seed, i, tier):
     r = core.Rng("c04", seed, i)
-    n = r.choice([64, 64, 96, 128, 192, 256] if tier == "thorough" else [64, 64, 96, 128])
+    n = r.choice([64, 65, 96, 128, 129, 192, 256] if tier == "thorough" else [64, 65, 96, 97, 128])      # even and odd meshes
     steps = r.choice([50, 100, 200, 500] if tier == "thorough" else [50, 100, 200])
     d = 12.0 / (n - 1)
     e1 = min(r.loguniform(1.2e-3, 8e-3), 0.25 * d * d)
@@ -35,6 +35,8 @@ def gen(seed, i, tier):
     o = dict(GridSize=n, StepsPerTs=steps, VacuumGap=0, InterpolationPoints=order, derivation=r.choice([3, 4]), outstep=steps)
     if r.chance(0.3):
         o["PhaseSpaceShiftY"] = round(r.uniform(-2, 2), 2)
+    if i % 3 == 0:
+        o["FPTrack"] = r.choice([0, 1, 2])       # model for tracked particles: without a tracking file it must not matter to the grid
     if i % 4 == 2:
         # "every start relaxes" holds for every bunch of a train: two bunches of different charge, sometimes with an empty bucket between
         a1 = round(r.loguniform(2e-4, 2e-3), 7)
